@@ -472,16 +472,16 @@ Fixpoint eval_all (R : resolver) (st : rstate) (k : cpkg) (allow_pin : string)
   end.
 
 (* fewest candidates; ties: the smaller string *)
+Definition lowest_step (best : cstr * list pid) (e : string * (cstr * list pid)) : cstr * list pid :=
+  let '(d, l) := snd e in
+  let '(bd, bl) := best in
+  if Nat.ltb (List.length l) (List.length bl) then (d, l)
+  else if Nat.eqb (List.length l) (List.length bl) && String.ltb (s_raw d) (s_raw bd) then (d, l)
+  else best.
 Definition lowest (opts : options) : option (cstr * list pid) :=
   match opts with
   | [] => None
-  | (_, x) :: t =>
-      Some (fold_left (fun best e =>
-              let '(_, (d, l)) := e in
-              let '(bd, bl) := best in
-              if Nat.ltb (List.length l) (List.length bl) then (d, l)
-              else if Nat.eqb (List.length l) (List.length bl) && String.ltb (s_raw d) (s_raw bd) then (d, l)
-              else best) t x)
+  | (_, x) :: t => Some (fold_left lowest_step t x)
   end.
 
 Definition note_existing (R : resolver) (sub : list pid) (st : rstate) : rstate :=
